@@ -351,7 +351,7 @@ theorem addEdgesFrom_inv {s : HG} (h : Inv s) (fmt : Fmt) (items : List EdgeItem
   unfold addEdgesFrom
   split
   · split
-    · exact h
+    · exact key
     · split
       · exact h
       · exact key
